@@ -64,7 +64,7 @@ def parseToc? (w : String) : Option Toc :=
   if w == "-" then some [] else (w.splitOn "|").mapM parseGroup?
 
 structure DSt where
-  fs : FS := ⟨[], [], false⟩
+  fs : FS := ⟨[], [], [], false⟩
   cache : Cache := ⟨[], none⟩
   f : Fetcher := ⟨.getInfo, 0, 0, 0, .typed []⟩
 
@@ -129,13 +129,20 @@ def step' (σ : DSt) (ws : List String) : DSt × String :=
     match parseStr? p, ofHex? hex with
     | some p, some b => ({ σ with fs := { σ.fs with files := σ.fs.files ++ [(p, b)] } }, "ok")
     | _, _ => (σ, "bad-op")
+  | ["ghost", p, kind] =>
+    let k : Option Ghost := if kind == "dir" then some .dir else if kind == "dangling" then some .dangling
+      else if kind == "noperm" then some .noperm else none
+    match parseStr? p, k with
+    | some p, some k =>
+      ({ σ with fs := { σ.fs with files := σ.fs.files.filter (·.1 != p), ghosts := σ.fs.ghosts.filter (·.1 != p) ++ [(p, k)] } }, "ok")
+    | _, _ => (σ, "bad-op")
   | ["rm", p] =>
     match parseStr? p with
     | some p => ({ σ with fs := { σ.fs with files := σ.fs.files.filter (·.1 != p) } }, "ok")
     | none => (σ, "bad-op")
   | ["listing"] =>
     -- forget the listing order (the harness re-sends files in the order the OS lists them)
-    ({ σ with fs := { σ.fs with files := [], dirs := [] } }, "ok")
+    ({ σ with fs := { σ.fs with files := [], ghosts := [], dirs := [] } }, "ok")
   | ["readonly", b] =>
     if b == "1" then ({ σ with fs := { σ.fs with readonly := true } }, "ok")
     else if b == "0" then ({ σ with fs := { σ.fs with readonly := false } }, "ok")
